@@ -1,4 +1,5 @@
 SPECIFICATION TraceSpec
+CONSTANT Bug = "none"
 CONSTANT MaxDefects = 14
 CONSTANT MaxValidations = 1
 CONSTANT MaxPending = 8
